@@ -123,7 +123,7 @@ func Solve(workdir, name, query string, timeout time.Duration, only string) Solv
 	for r := range ch {
 		if r.Result == "unsat" || r.Result == "sat" {
 			cancel()
-			if r.Result == "unsat" {
+			if r.Result == "unsat" && os.Getenv("GOVC_KEEP") == "" {
 				os.Remove(file)
 			}
 			return r
